@@ -91,7 +91,13 @@ func render(w *Workload) rendered {
 		bad := func() {
 			switch s.Kind {
 			case "parse_err":
-				line("a = = 1")
+				if s.BadAt%2 == 1 {
+					// two diagnostics in one script: a non-fatal one (slice bound type) and a syntax error
+					line("x = y[1.5:2]")
+					line("z w")
+				} else {
+					line("a = = 1")
+				}
 			case "check_err":
 				line("no_such_function(1)")
 			}
@@ -323,9 +329,14 @@ func (Prop) Run(p *core.Plan) *core.Result {
 			continue
 		}
 		_, errs := engine.ParseScript(map[string]string{s.Name: rd.src[s.Name]}, calls, checks)
+		if errs[s.Name] == nil {
+			return &core.Result{Infra: fmt.Sprintf("script %s labelled %s loads alone without error", s.Name, s.Kind)}
+		}
 		e, ok := errs[s.Name].(*errchain.PlError)
 		if !ok || e == nil {
-			return &core.Result{Infra: fmt.Sprintf("script %s labelled %s loads alone with %v", s.Name, s.Kind, errs[s.Name])}
+			// the broken script's own error is of another error type (several diagnostics?): its
+			// referrers are still held to the chain clause, only the verbatim-front comparison is skipped
+			continue
 		}
 		own[s.Name] = e.Copy()
 	}
@@ -436,11 +447,14 @@ func (Prop) Run(p *core.Plan) *core.Result {
 				continue
 			}
 			pe, ok := e.(*errchain.PlError)
+			if s.Kind != "ok" && (!ok || pe == nil) {
+				continue // the broken script's own diagnostics may be of any error type
+			}
 			if !ok || pe == nil || len(pe.PosChain) == 0 {
 				return viol("error-shape", "error-not-chain", fmt.Sprintf("load %d: rejected script %s: error has no position chain: %s", l, s.Name, errText(e)))
 			}
 			if s.Kind != "ok" {
-				if !sameErr(pe, own[s.Name]) {
+				if own[s.Name] != nil && !sameErr(pe, own[s.Name]) {
 					return viol("error-altered", "stored-error-altered", fmt.Sprintf("load %d: the stored error of %s is %s, loading it alone gives %s", l, s.Name, errText(pe), errText(own[s.Name])))
 				}
 				continue
